@@ -174,7 +174,7 @@ func c19FillRect(op c19Op, cols, rows uint32) (x0, x1, y0, y1 uint32, any bool) 
 // ---------------------------------------------------------------------------
 // guarded memory shared by all cases of the process
 
-const c19RegionBytes = 512 << 10
+const c19RegionBytes = 5 << 20
 
 var (
 	c19Once   sync.Once
@@ -199,6 +199,26 @@ func c19Buffer(n int, atStart bool) ([]byte, uintptr, error) {
 	}
 	tl := c19Mem.Tail(n)
 	return tl[:n:n], c19Mem.Addr(), nil
+}
+
+var (
+	c19Once2   sync.Once
+	c19Mem2    *vlib.Guarded
+	c19MemErr2 error
+)
+
+// c19SecondBuffer is a second guarded block of the same size: the place a repeated DriverInit
+// maps the framebuffer to. It returns the first n bytes and the block's page address.
+func c19SecondBuffer(n int) ([]byte, uintptr, error) {
+	c19Once2.Do(func() { c19Mem2, c19MemErr2 = vlib.NewGuarded(c19RegionBytes, false) })
+	if c19MemErr2 != nil {
+		return nil, 0, c19MemErr2
+	}
+	if n <= 0 || n > len(c19Mem2.Data) {
+		return nil, 0, fmt.Errorf("buffer of %d bytes does not fit the second guarded block", n)
+	}
+	h := c19Mem2.Head(n)
+	return h[:n:n], c19Mem2.Addr(), nil
 }
 
 var c19HexRe = regexp.MustCompile(`0x[0-9a-fA-F]+`)
